@@ -89,6 +89,8 @@ func replay(c *core.Ctx, cf cfg, raw json.RawMessage) error {
 
 func describe(op hist.Op) string {
 	switch op.Kind {
+	case "parsefiles", "parseglob", "parsefs":
+		return fmt.Sprintf("v%d.%s(file %q containing %q)", op.H, map[string]string{"parsefiles": "ParseFilesFromTrustedSources", "parseglob": "ParseGlobFromTrustedSource", "parsefs": "ParseFS"}[op.Kind], op.Name, op.Text)
 	case "parse":
 		t := op.Text
 		if len(t) > 200 {
@@ -113,6 +115,7 @@ func describe(op hist.Op) string {
 func judge(c *core.Ctx, cf cfg, h *hist.History, verbose bool) {
 	k := kase{History: h}
 	e := hist.NewExec(h)
+	defer e.Close()
 	model := hist.NewModel(h.NVar)
 	real := make([]hist.Result, len(h.Ops))
 	executed := map[*template.Template]bool{}
